@@ -49,7 +49,7 @@ def gen_texts(ctx):
             texts.append(p[:i] + p[j:j + rnd.randint(1, 8)] + p[i:])
         else:
             a, b = sorted((i, j)); texts.append(p[:a] + p[b:] + p[a:b])
-    return texts
+    return C.uniq(texts)
 
 
 def attribute(ctx, failures, findings):
